@@ -135,6 +135,48 @@ def engine_refuses(r, F):
               "the engine stops accepting work, then waits for flushers and reclaimers", "BlockEngine::close does not deactivate the engine before waiting", ln=c.lo)
 
 
+def queue_gate(r, F):
+    """BlockEngine::enqueue silently drops entries while the engine-wide submit_queue_size counter exceeds its threshold — also the entries handed over by the
+    flush that close() runs.  The counter must therefore be released for EVERY received cache entry (written or rejected by the buffer), by the amount that
+    was added for it: paired accounting over all sites that touch the counter."""
+    sites = []
+    for f in F.all_fns("P"):
+        if f.crate.name != "foyer_storage" or "::tests::" in f.short or "test_utils" in f.file:
+            continue
+        for b in f.calls_to(r"atomic::Atomic::<\w+>::(fetch_add|fetch_sub|store|swap|fetch_update|fetch_max|fetch_min|compare_exchange\w*)$"):
+            sl = backslice(f, b.term.args[0], "prov")
+            if sl.has_field("submit_queue_size") or any("submit_queue_size" in u for u in sl.upvars):
+                sites.append((f, b))
+    kinds = sorted((f.short.rsplit("::", 2)[-2] + "::" + f.short.rsplit("::", 1)[-1], b.term.callee.rsplit("::", 1)[-1]) for f, b in sites)
+    r.require(len(sites) == 2 and sorted(k for _, k in kinds) == ["fetch_add", "fetch_sub"], None, "counter sites", "the counter is written at exactly one add site and one sub site: %s" % kinds,
+              "submit_queue_size is written at %s — expected exactly one fetch_add (submission) and one fetch_sub (reception)" % kinds)
+    for f, b in sites:
+        op = b.term.callee.rsplit("::", 1)[-1]
+        amt = backslice(f, b.term.args[1], "prov")
+        r.require(any(n == "estimated_size" and of.endswith("Submission::CacheEntry") for of, n in amt.fields), f, "%s amount = the submission's estimated_size" % op,
+                  "the same quantity is added and subtracted", "submit_queue_size.%s does not use the submission's own estimated_size: the counter drifts" % op, ln=b.term.ln)
+        ok = False
+        for (sb, pl, tm, other) in tables.discr_switches(f):
+            if "CacheEntry" in tm:
+                ok = f.edge_guards(sb.idx, tm["CacheEntry"], b.idx) and f.must_pass(tm["CacheEntry"], [b.idx])
+        r.require(ok, f, "%s on every path of the CacheEntry arm" % op, "each cache-entry submission is counted once when submitted and released once when received, whether or not the buffer accepted it",
+                  "submit_queue_size.%s is not executed on every path of the CacheEntry arm of %s: an entry the buffer rejects (too large, buffer full) is never released from the counter; once the leaked "
+                  "total exceeds submit_queue_size_threshold BlockEngine::enqueue drops every later entry, including those flushed by close()" % (op, f.short.rsplit("::", 1)[-1]), ln=b.term.ln)
+    # the gate itself: drop only while the counter EXCEEDS the threshold
+    enq = F.method("foyer_storage::engine::block::engine::BlockEngine", "enqueue")
+    sub = [b.idx for b in enq.calls_to(r"Flusher::<K, V, P>::submit$")]
+    def queued(f, op):
+        if op.place is None:
+            return False
+        return any(t.callee and t.callee.endswith("::load") and backslice(f, t.args[0], "prov").has_field("submit_queue_size") for bb, t in backslice(f, op, "prov").calls)
+    found = tables.find_cmp(enq, queued, tables.role_field("submit_queue_size_threshold"),
+                            "comparison of submit_queue_size with its threshold")
+    for c, fl in found:
+        tab = tables.table(enq, c, fl, sub)
+        r.require(tab[0] != "no" and tab[1] != "no" and tab[2] == "no", enq, "gate: queued ? threshold -> submit", "table (queued<thr, =, >) -> submitted: %s" % (tab,),
+                  "BlockEngine::enqueue must drop an entry only while the queued size exceeds the threshold; got (queued<thr,=,>) -> submitted %s" % (tab,), ln=c.ln)
+
+
 def drop_closes(r, F):
     d = F.method(HC + "::Inner", "drop", "Drop")
     bodies = [d] + F.descendants(d)
@@ -184,5 +226,6 @@ def run(chk, F):
     chk.run_rule("C15.close-order", "closed flag first (idempotent), flush iff flush_on_close and completed before the store is closed, result propagated", 6, close_order, F)
     chk.run_rule("C15.flush-all", "flush evicts every shard to zero and hands every record to the pipe; the pipe enqueues all but in-memory-only pieces after draining", 5, flush_all, F)
     chk.run_rule("C15.engine-refuses", "enqueue/delete test `active` before allocating or submitting; close deactivates then waits", 3, engine_refuses, F)
+    chk.run_rule("C15.queue-gate", "the submit-queue admission counter is released for every received entry by the amount added for it; the gate drops only above the threshold", 6, queue_gate, F)
     chk.run_rule("C15.drop-closes", "Drop and close() run close_inner with the cache's own flag and tiers", 2, drop_closes, F)
     chk.run_rule("C15.inmem-guard", "every Store::enqueue of the hybrid layer is control-dependent on location != InMem", 5, C12.inmem_guard, F)
